@@ -47,10 +47,54 @@ except Exception as e:
           %% (text, e)); sys.exit(1)
 '''
 
+# CPython (>= 3.11) refuses to convert an int of more than 4300 decimal digits to str (ValueError).  The value of
+# an integer expression is written in failure messages and traces -- when the outcome is reported, outside every
+# handler: a value that cannot be written is an uncaught exception there.  In this module `str(n)` of an int has
+# that limit; elsewhere integers are line numbers, counts and exit codes and `str` is total (DESIGN 2.5).
+INT_STR_LIMIT = 10 ** 4300
+
+
+def _m_str_with_cpython_limit(interp, args, kwargs):
+    from pyvc.values import SInt, wrap
+    from pyvc.interp import PyRaise
+    if args and isinstance(args[0], SInt):
+        n = args[0]
+        if not interp.st.fork(wrap(_z3.And(-INT_STR_LIMIT < n.t, n.t < INT_STR_LIMIT))):
+            raise PyRaise(ValueError('Exceeds the limit (4300 digits) for integer string conversion'))
+    return _models.m_str(interp, args, kwargs)
+
+
+M.model(str, _m_str_with_cpython_limit)
+M.trust('str(n) of an int raises ValueError iff abs(n) >= 10**4300 (CPython >= 3.11, default limit); modelled in '
+        'this module only')
+
+
+def _eval_replay_any(model, rf):
+    if 'can be written' in rf.get('obligation', ''):
+        return _EVAL_REPLAY_BIG
+    return _eval_replay(model, rf)
+
+
+_EVAL_REPLAY_BIG = '''
+from exactly_lib.impls.types.integer.evaluate_integer import python_evaluate, NotAnIntegerException
+text = '10**5000'
+try:
+    v = python_evaluate(text)
+except NotAnIntegerException as e:
+    print('NotAnIntegerException: reported as a validation error'); sys.exit(0)
+try:
+    str(v); print('the value can be written'); sys.exit(0)
+except ValueError as e:
+    print('python_evaluate(%r) returns a value that cannot be written: %r -- `exit-code == 10**5000` prints FAIL and '
+          'then ends with a traceback (exit 1) when the failure message is rendered' % (text, e)); sys.exit(1)
+'''
+
 M.contract(P_EVAL + ':python_evaluate', params=dict(s=Str), returns=Int,
-           ensures={'an integer': lambda result: isinstance(result, int)},
+           ensures={'an integer': lambda result: isinstance(result, int),
+                    'the value can be written in decimal notation (it is rendered in messages and traces)':
+                        lambda result: -INT_STR_LIMIT < result and result < INT_STR_LIMIT},
            raises={NotAnIntegerException: {}},       # its docstring: nothing else
-           raises_only=(), replay=_eval_replay)
+           raises_only=(), replay=_eval_replay_any)
 
 NOT_AN_INTEGER = Inst(NotAnIntegerException, value_string=Str, python_exception_message=Opt(Str))
 # (the shape of the exception as the callers of python_evaluate see it)
@@ -79,7 +123,10 @@ M.contract('exactly_lib.common.report_rendering.text_docs:major_blocks_of_string
            params=dict(s=Str), returns=Any_)
 M.trust('text_docs.major_blocks_of_string_lines(str) returns a renderer (splits the string into lines; total)')
 
+M.assume('custom integer validators are applied to values that python_evaluate returned (integer_sdv / integer_ddv '
+         'obtain every value from it): values that can be written in decimal notation')
 M.contract('exactly_lib.impls.types.integer.parse_integer:validator_for_non_negative', params=dict(actual=Int),
+           requires=lambda actual: -INT_STR_LIMIT < actual and actual < INT_STR_LIMIT,
            ensures={'an error text iff negative': lambda actual, result: (result is None) == (actual >= 0)},
            raises_only=())
 
